@@ -8,6 +8,7 @@
  *                                  device replies faked, and log every hsprintf(fmt, arg) call
  * Each request runs in a forked child (the parser exits the process on any error); the parent prints
  *     BEGIN <path>  ... child output ...  STATUS exit=<n> sig=<n> err=<hex of first bytes of stderr>
+ * (STATUS starts on a fresh line even if the child died in the middle of one)
  *
  * Dump format (shared with gen/devparse.py):
  *   SPEC <hexname> <timeout usec> <ping usec>
@@ -379,6 +380,7 @@ static void exec_device(Device *dev)
             if (!dev->scripts[plain[i]])
                 continue;                              /* a missing login script is finding F14, not ours */
             printf("Q %d plain\n", plain[i]);
+            fflush(stdout);
             _enqueue_actions(dev, plain[i], NULL, stub_complete, NULL, stub_diag, 1, NULL);
             run_queue(dev);
         }
@@ -404,6 +406,7 @@ static void exec_device(Device *dev)
                             a->state = st ? ST_ON : ST_OFF;
                     }
                     printf("Q %d targets=%d state=%d interp=%d\n", com, cnt, st, fi);
+                    fflush(stdout);
                     _enqueue_actions(dev, com, hl, stub_complete, NULL, stub_diag, 1, al);
                     run_queue(dev);
                     arglist_unlink(al);
@@ -477,7 +480,7 @@ int main(int argc, char **argv)
             n = fread(errbuf, 1, sizeof(errbuf) - 1, ef);
             fclose(ef);
         }
-        printf("STATUS exit=%d sig=%d err=", WIFEXITED(status) ? WEXITSTATUS(status) : -1,
+        printf("\nSTATUS exit=%d sig=%d err=", WIFEXITED(status) ? WEXITSTATUS(status) : -1,
                WIFSIGNALED(status) ? WTERMSIG(status) : 0);
         if (n <= 0)
             printf("-");
